@@ -639,13 +639,14 @@ public:
       variable_t scalar_lhs(mk_scalar_var(lhs, size.get_constant()));
       variable_t scalar_rhs(mk_scalar_var(rhs, size.get_constant()));
 
-      auto ty = scalar_lhs.get_type();
-      if (ty.is_bool()) {
-        m_base_dom.assign_bool_var(scalar_lhs, scalar_rhs, false);
-      } else {
-        assert(ty.is_integer() || ty.is_real());
-        m_base_dom.assign(scalar_lhs, scalar_rhs);
-      }
+      // scalar_lhs and scalar_rhs are summarized variables: each of
+      // them stands for all the cells of its array. An assignment
+      // scalar_lhs := scalar_rhs would tell a relational base domain
+      // that every cell of lhs is equal to every cell of rhs. What
+      // holds is that the cells of lhs satisfy whatever the cells of
+      // rhs satisfy, i.e., scalar_lhs is an expansion of scalar_rhs.
+      m_base_dom -= scalar_lhs;
+      m_base_dom.expand(scalar_rhs, scalar_lhs);
     } else {
       // Nothing is known about the contents of rhs so nothing is
       // known about the new contents of lhs: the old summary of lhs
